@@ -60,6 +60,8 @@ def gen_case(rng):
                 if rng.random() < 0.5:
                     name = "trace.jsonl"
             logs.append([name, pl])
+            if rng.random() < 0.12:
+                logs.append([name, copy.deepcopy(pl)])  # the same line once more (a retry that logs again, a repeated event)
         deltas = [["node", f"n:{a}:{rng.choice('abc')}", "weight", rng.choice([0.1, -0.2, 0.3]), 1] for _ in range(rng.randint(0, 4))]
         if rng.random() < 0.12:
             # a chatty compute phase: hundreds of small records in one turn
